@@ -406,6 +406,16 @@ func cmdForge(args []string, w *bufio.Writer) {
 				fs = append(fs, forgery{"signature-garbage", int64(i), replace(i, with(edited, base64.StdEncoding.EncodeToString([]byte("garbage garbage garbage")), false))})
 				fs = append(fs, forgery{"signature-is-other-data", int64(i), replace(i, with(edited, base64.StdEncoding.EncodeToString([]byte(emb)), false))})
 				fs = append(fs, forgery{"signature-empty", int64(i), replace(i, with(edited, "", false))})
+				// the signed header and its signature untouched, extra unsigned records next to them on the envelope
+				other := "/intruder"
+				if oj, err := peel(ms[(i+1)%len(ms)].hdr); err == nil && oj.Name != "" {
+					other = oj.Name
+				}
+				for _, extra := range [][2]string{{"STFS.ReplacesName", other}, {"STFS.Action", "DELETE"}, {"STFS.UncompressedSize", "1"}, {"STFS.ReplacesContent", "true"}, {"STFS.Version", "1"}} {
+					c := *signed
+					c.PAXRecords = map[string]string{"STFS.EmbeddedHeader": emb, "STFS.Signature": sig, extra[0]: extra[1]}
+					fs = append(fs, forgery{"unsigned-record-on-envelope:" + extra[0], int64(i), replace(i, wrap(&c))})
+				}
 				// re-encoded but identical signature over the unedited header must still be fine (control)
 				if raw, err := base64.StdEncoding.DecodeString(sig); err == nil {
 					fs = append(fs, forgery{"control-reencoded-signature", int64(i), replace(i, with(emb, base64.StdEncoding.EncodeToString(raw), false))})
